@@ -20,7 +20,7 @@
     ------------------------------------------------------------------------------------------------------------ *)
 From Coq Require Import ZArith List String Permutation.
 From LV Require Import Base.Conc Base.Events Base.Lin Spec.Specs Model.MsPq
-  Proofs.MsPqBrc Proofs.MsPqInv Proofs.MsPqProofs Proofs.MsPqSeq Proofs.MsPqPhase.
+  Proofs.MsPqBrc Proofs.MsPqInv Proofs.MsPqProofs Proofs.MsPqSeq Proofs.MsPqPhase Proofs.MsPqBounds.
 Import ListNotations.
 Local Open Scope Z_scope.
 Local Open Scope string_scope.
@@ -102,6 +102,16 @@ Theorem C11_mspq_capacities :
   forall k, (k <= 8)%nat -> slots_ok (2 ^ k - 1) = true /\ shape_ok (2 ^ k - 1) = true.
 Proof. exact slots_ok_pow2. Qed.
 Print Assumptions C11_mspq_capacities.
+
+(** for those capacities no index ever leaves the buffer: the model marks m_Heap[i] with i >= m_Heap.capacity()
+    by the event "ub_oob"; no reachable trace, under any schedule, contains it *)
+Theorem C11_mspq_no_out_of_bounds :
+  forall cap, slots_ok cap = true ->
+  forall (hf lf : nat) (ths : list (list MsPq.op)) c,
+    Conc.reach (MsPq.init_cfg cap hf lf ths) c ->
+    forall te, In te (Conc.trace c) -> is_cli "ub_oob" (snd te) = false.
+Proof. exact mspq_no_oob_event. Qed.
+Print Assumptions C11_mspq_no_out_of_bounds.
 
 (** capacities in 1..16 for which the counter produces a slot outside the buffer of capacity + 1 cells
     (only reachable with a buffer whose Exp2 parameter is false): candidate finding, see the report *)
